@@ -6,6 +6,7 @@ MODULE = "cspuz.puzzle.slitherlink"
 FUNC = "solve_slitherlink"
 LOOP = True
 VALUES = [-1, 0, 1, 2, 3, 4]
+TIER1 = ("Slitherlink", "solve_slitherlink_model")
 
 
 def call(mod, pb):
@@ -40,3 +41,39 @@ def tier2(tier, rng):
     for (h, w) in [(1, 2), (2, 1)]:
         for g in L.sample(rng, L.all_grids(h, w, VALUES), 36 if tier == "thorough" else 6):
             yield {"h": h, "w": w, "grid": g}
+
+
+def tier1_problems(tier, rng):
+    """program-capture tie: every clue grid of the boards with <= 3 cells (values -1..4 and the out-of-range 5 on 1x1 / 1x2 /
+    2x1), a sample of all grids on the boards with 4..6 cells (both orientations), random grids on larger and non-square
+    boards (up to 7x7, 1xN, Nx1) with clue values at and beyond the boundaries (-3, -2, 5, 6, 9), boards without cells
+    (height = 0 or width = 0: accepted by the Python), and malformed problems: a negative dimension (ValueError), trailing
+    clue cells / rows missing (IndexError)"""
+    th = tier == "thorough"
+    wide = VALUES + [5]
+    for (h, w) in [(1, 1), (1, 2), (2, 1)]:
+        for g in L.all_grids(h, w, wide):
+            yield {"h": h, "w": w, "grid": g}
+    for (h, w) in [(1, 3), (3, 1)]:
+        for g in L.all_grids(h, w, VALUES):
+            yield {"h": h, "w": w, "grid": g}
+    for (h, w) in [(2, 2), (1, 4), (4, 1), (1, 5), (5, 1), (2, 3), (3, 2), (1, 6), (6, 1)]:
+        for g in L.sample(rng, L.all_grids(h, w, VALUES), 120 if th else 12):
+            yield {"h": h, "w": w, "grid": g}
+    far = [-3, -2, -1, -1, 0, 1, 2, 3, 4, 5, 6, 9]
+    for (h, w) in [(3, 3), (2, 4), (4, 2), (2, 5), (5, 2), (3, 4), (4, 3), (4, 4), (3, 6), (6, 3), (5, 5), (4, 6),
+                   (6, 5), (7, 7), (1, 7), (7, 1), (1, 9), (8, 1), (2, 7), (7, 2)]:
+        for p in [0.2, 0.6] * (3 if th else 1):
+            yield {"h": h, "w": w, "grid": L.random_grid(rng, h, w, VALUES, p)}
+        yield {"h": h, "w": w, "grid": [[rng.choice(far) for _ in range(w)] for _ in range(h)]}
+    for (h, w) in [(0, 0), (0, 1), (1, 0), (0, 3), (3, 0), (0, 6), (5, 0)]:
+        yield {"h": h, "w": w, "grid": [[] for _ in range(h)]}
+    # malformed: a negative dimension -> ValueError (Array2D.__init__)
+    for (h, w) in [(-1, 0), (0, -1), (-1, 2), (2, -1), (-1, -1), (-3, 1), (1, -2), (-1, -4), (-2, 0)]:
+        yield {"h": h, "w": w, "grid": [[] for _ in range(max(h, 0))]}
+    # malformed: trailing cells / rows missing -> IndexError (after the frame and the loop constraints were posted)
+    for (h, w) in [(1, 1), (1, 3), (2, 2), (3, 2), (4, 4)]:
+        g = L.random_grid(rng, h, w, VALUES, 0.5)
+        yield {"h": h, "w": w, "grid": g[:-1] + [g[-1][:-1]]}
+        yield {"h": h, "w": w, "grid": g[:-1]}
+        yield {"h": h, "w": w, "grid": []}
